@@ -142,7 +142,10 @@ pub struct PoolImpl {
     /// Keeps track of which slots are finalized.
     finality_tracker: FinalityTracker,
     /// Keeps track of safe-to-notar blocks waiting for a parent certificate.
-    s2n_waiting_parent_cert: BTreeMap<BlockId, BlockId>,
+    ///
+    /// Maps each parent to all children waiting for it (an equivocating leader,
+    /// or leaders of different slots, may build several blocks on one parent).
+    s2n_waiting_parent_cert: BTreeMap<BlockId, Vec<BlockId>>,
 
     /// Information about all active validators.
     epoch_info: Arc<ValidatorEpochInfo>,
@@ -243,18 +246,23 @@ impl PoolImpl {
         self.send_votor_event(event).await;
     }
 
-    /// Notifies the child block waiting for `parent_id` to become certified, if any.
+    /// Notifies all child blocks waiting for `parent_id` to become certified, if any.
     ///
-    /// This potentially emits safe-to-notar for the child (or requests its repair).
+    /// This potentially emits safe-to-notar for each child (or requests its repair).
     async fn notify_waiting_child(&mut self, parent_id: &BlockId) {
-        if let Some((child_slot, child_hash)) = self.s2n_waiting_parent_cert.remove(parent_id)
-            && let Some(output) = self
+        let children = self
+            .s2n_waiting_parent_cert
+            .remove(parent_id)
+            .unwrap_or_default();
+        for (child_slot, child_hash) in children {
+            if let Some(output) = self
                 .slot_state(child_slot)
                 .notify_parent_certified(child_hash)
-        {
-            match output {
-                Either::Left(event) => self.send_votor_event(event).await,
-                Either::Right((slot, hash)) => self.send_repair((slot, hash)).await,
+            {
+                match output {
+                    Either::Left(event) => self.send_votor_event(event).await,
+                    Either::Right((slot, hash)) => self.send_repair((slot, hash)).await,
+                }
             }
         }
     }
@@ -555,7 +563,10 @@ impl Pool for PoolImpl {
             }
             return;
         }
-        self.s2n_waiting_parent_cert.insert(parent_id, block_id);
+        let waiting = self.s2n_waiting_parent_cert.entry(parent_id).or_default();
+        if !waiting.contains(&block_id) {
+            waiting.push(block_id);
+        }
     }
 
     /// Triggers a recovery from a standstill.
